@@ -330,17 +330,17 @@ def nlargest (frame : List Name) (columns : Option (List Name)) (p : Parent) (de
   | some cs => keyed frame cs p deps
 
 /-- `RollingReduction._simplify_up`; `gb` = `groupby_kwargs["by"]` column names when the rolling is grouped.
-    Without grouping the parent projection is NOT re-applied and one column collapses to a scalar selection. -/
+    The parent selection is re-applied (since D43); only an ungrouped rolling under a SCALAR selection of one column
+    collapses to a series. -/
 def rolling (frame : List Name) (gb : Option (List Name)) (p : Parent) (deps : List Dep) : Option Rw :=
-  let sel := detProj p deps (match gb with | some b => b | none => [])
-  let columns := frame.filter sel.has
+  -- `_convert_to_list(columns)` first (since D43): membership, not python's substring test on a scalar selection
+  let columns := frame.filter ((detProj p deps (gb.getD [])).toList.contains ·)
   if columns = frame then none
-  else match gb with
-    | some _ => some { childs := [some (.many columns)], keep := true }
-    | none =>
-      match columns with
-      | [c] => some { childs := [some (.one c)], keep := false }
-      | _ => some { childs := [some (.many columns)], keep := false }
+  else if gb.isNone && p.ndim1 then
+    match columns with
+    | [c] => some { childs := [some (.one c)], keep := false }
+    | _ => some { childs := [some (.many columns)], keep := true }
+  else some { childs := [some (.many columns)], keep := true }
 
 /-! #### Merge -/
 
